@@ -13,6 +13,9 @@ CHECKS = {
  "C05": ("exploration", "deterministic hook-point scheduler (one request held at each filesystem step while another runs to completion, same/other gateway process) + atomicity monitor on every read + porcupine linearizability check of client-boundary histories; stress histories with injected delays; race detector lane",
    "Every (paused operation, hook point it passes, observer operation, process placement, temp-file strategy) schedule is executed against real gateway processes sharing one storage; unique write ids make every read identify its write four ways (body hash, length, ETag, metadata). Exhaustive over the instrumented steps for two-request schedules; three-way interleavings and preemption between hook points only by stress.",
    "Trusts the placement of the hook points (between filesystem steps), porcupine v1.3.0, the register model (with the delete-by-version rule), tmpfs. Recorded known findings: GET/HEAD read size, attributes and data by path in separate steps (torn reads); delete-by-version racing a writer.", "3/C05"),
+ "C11": ("fault_enumeration", "crash-point enumeration: the hook scheduler holds the operation at each filesystem step of its recorded trace, the harness SIGKILLs the gateway there, a newly started process is examined by an old-or-new state monitor (unique write ids) plus leftover/later-operation probes",
+   "For every operation kind (PUT new/overwrite/versioned/with tags+lock, directory object, copy, upload-part, multipart completion, delete, delete marker, delete-by-version, batch delete) x storage configuration (O_TMPFILE|named temp x xattr|sidecar) the gateway is killed at EVERY hook hit of the operation's trace (exhaustive over the instrumented steps, single request in flight) and the state is judged through a fresh process; a no-crash control run of each operation must satisfy the same oracle.",
+   "Trusts hook placement between filesystem steps; models process death (SIGKILL), not power loss (the code never fsyncs); tmpfs. Known findings: post-publication steps (tags/lock, multipart cleanup), two-step delete marker, directory objects, the sidecar store's path-based metadata.", "3/C11"),
 }
 PENDING_REASON = "check not yet built in this session (under construction; see DESIGN.md section 3)"
 props=[json.loads(l)["id"] for l in open(os.path.join(V,"properties.jsonl"))]
